@@ -191,10 +191,9 @@ def annotate_rules(ctx, rule):
     compare(ctx, rule, fa, None, ref_fa=ref,
             why='each pixel gets the row of its own bin: positional take relative to the first index of the (possibly partial) '
                 'table; window = [min, max] of the ids only when the table is longer than the pixel list; the output keeps the pixels\' index')
-    names = list(fa.nested.items())
-    rnames = list(ref.nested_analyses.items())
-    for (an, aq), (rn, rfa) in zip(names, rnames):
-        compare(ctx, f'{rule}.slicer#{names.index((an, aq)) + 1}', ctx.fa(aq), None, ref_fa=rfa,
+    from ..refcompare import nested_pairs
+    for an, aq, rn, rq in nested_pairs(ctx, fa, ref):
+        compare(ctx, f'{rule}.slicer#{1 if "#" not in rn else rn.split("#")[1]}', ctx.fa(aq), None, ref_fa=ref.nested_analyses[rn],
                 why='selector slicing is end-exclusive (+1), frame .loc slicing end-inclusive')
 
 
